@@ -34,7 +34,16 @@ pub enum Op {
     /// withdraw by a user that has closed positions
     WithdrawPick { pick: u16 },
     Withdraw { user: u8 },
-    HelperDeposit { user: u8, a0: Uint128, a1: Uint128, dur: u8 },
+    /// `extra`: 0-3 exact funds; 4 = one unit too many of the first native pool denom; 5 = twice the
+    /// stated amount of it; 6 = an unrelated coin on top ("urew"); 7 = both a surplus and an unrelated coin
+    HelperDeposit {
+        user: u8,
+        a0: Uint128,
+        a1: Uint128,
+        dur: u8,
+        #[serde(default)]
+        extra: u8,
+    },
     OpenFlowLp { user: u8, declared: Uint128, exact: bool },
     ExpandFlowLp { sel: u16, amount: Uint128 },
     CloseFlowLp { sel: u16 },
@@ -72,7 +81,7 @@ fn op() -> BoxedStrategy<Op> {
         5 => (any::<u16>(), gen::amount(1, 1u128 << 60), proptest::bool::weighted(0.2)).prop_map(|(pick, a, by_other)| Op::ExpandExisting { pick, amount: Uint128::new(a), by_other }),
         4 => any::<u16>().prop_map(|pick| Op::WithdrawPick { pick }),
         5 => (0u8..4).prop_map(|user| Op::Withdraw { user }),
-        3 => (0u8..4, gen::amount(1, 1u128 << 60), gen::amount(1, 1u128 << 60), dur()).prop_map(|(user, a0, a1, dur)| Op::HelperDeposit { user, a0: Uint128::new(a0), a1: Uint128::new(a1), dur }),
+        3 => (0u8..4, gen::amount(1, 1u128 << 60), gen::amount(1, 1u128 << 60), dur(), 0u8..8).prop_map(|(user, a0, a1, dur, extra)| Op::HelperDeposit { user, a0: Uint128::new(a0), a1: Uint128::new(a1), dur, extra }),
         2 => (0u8..4, gen::amount(1000, 1u128 << 60), proptest::bool::weighted(0.85)).prop_map(|(user, d, exact)| Op::OpenFlowLp { user, declared: Uint128::new(d), exact }),
         1 => (any::<u16>(), gen::amount(1, 1u128 << 50)).prop_map(|(sel, a)| Op::ExpandFlowLp { sel, amount: Uint128::new(a) }),
         1 => any::<u16>().prop_map(|sel| Op::CloseFlowLp { sel }),
@@ -290,18 +299,23 @@ impl Check for LpCustody {
                         m.closed[u] += a;
                     }
                 }
-                Op::HelperDeposit { user, a0, a1, dur } => {
+                Op::HelperDeposit { user, a0, a1, dur, extra } => {
                     let (Some(helper), Some(pair), Some(pa)) = (iw.helper.clone(), iw.pair.clone(), iw.pair_assets.clone()) else {
                         continue;
                     };
                     let who = iw.user(*user);
                     let u = (*user % 4) as usize;
                     let d = DURS[(*dur % 6) as usize];
-                    let hb: Vec<u128> = vec![
-                        iw.w.bal(&iw.lp, &helper),
-                        iw.w.bal(&pa[0], &helper),
-                        iw.w.bal(&pa[1], &helper),
-                    ];
+                    // everything the helper could be left holding: the LP, both pool assets and every bank
+                    // denom of the world (funds attached beyond the stated amounts included)
+                    let helper_holdings = |iw: &IncWorld| -> Vec<u128> {
+                        let mut v = vec![iw.w.bal(&iw.lp, &helper), iw.w.bal(&pa[0], &helper), iw.w.bal(&pa[1], &helper)];
+                        for d in ["ulp", "urew", "ufee", "uaaa", "ubbb"] {
+                            v.push(iw.w.bank(&helper, d));
+                        }
+                        v
+                    };
+                    let hb = helper_holdings(&iw);
                     let b0 = iw.w.bal(&iw.lp, &iw.incentive);
                     let mut funds = vec![];
                     for (i, amt) in [a0.u128(), a1.u128()].iter().enumerate() {
@@ -330,6 +344,16 @@ impl Check for LpCustody {
                             }
                         }
                     }
+                    if matches!(*extra % 8, 4 | 5 | 7) {
+                        if let Some(c) = funds.first_mut() {
+                            c.amount += if *extra % 8 == 5 { c.amount } else { Uint128::one() };
+                            rec.class("helper_deposit_with_surplus_funds");
+                        }
+                    }
+                    if matches!(*extra % 8, 6 | 7) {
+                        funds.push(coin(7, "urew"));
+                        rec.class("helper_deposit_with_unrelated_coin");
+                    }
                     funds.sort_by(|a, b| a.denom.cmp(&b.denom));
                     let r = iw.w.exec(
                         &who,
@@ -342,14 +366,10 @@ impl Check for LpCustody {
                         },
                         &funds,
                     );
-                    let ha: Vec<u128> = vec![
-                        iw.w.bal(&iw.lp, &helper),
-                        iw.w.bal(&pa[0], &helper),
-                        iw.w.bal(&pa[1], &helper),
-                    ];
+                    let ha = helper_holdings(&iw);
                     ensure!(
                         ha == hb,
-                        "step {step}: the frontend helper's balances changed across a deposit: {hb:?} -> {ha:?} (result ok: {})",
+                        "step {step}: the frontend helper's holdings (LP, pool assets, then bank denoms ulp/urew/ufee/uaaa/ubbb) changed across a deposit: {hb:?} -> {ha:?} (result ok: {})",
                         r.is_ok()
                     );
                     if r.is_ok() {
